@@ -298,6 +298,8 @@ def parse_rvalue(s):
             except ParseError:
                 pass
         return Rvalue('use', (parse_operand(s),))
+    if s.startswith('&/*tls*/ '):
+        return Rvalue('tlsref', (s[9:],))
     if s.startswith('&raw const '):
         return Rvalue('rawptr', (parse_place(s[11:]), False))
     if s.startswith('&raw mut '):
